@@ -31,7 +31,7 @@ ASSUMPTIONS = [
 FLOORS = {
     'quick': {'cut_committed': 4000, 'scope:option': 500, 'scope:optional': 200, 'scope:closure-iteration-1': 100,
               'scope:closure-iteration-n': 200, 'scope:join-after-separator': 200, 'gen_compared': 15000,
-              'metamorphic_checked': 15000, 'variants': 900},
+              'metamorphic_checked': 15000, 'variants': 900, 'config:memoization': 100, 'config:prune_memos_on_cut': 100},
     'thorough': {'cut_committed': 150000, 'scope:closure-iteration-n': 5000, 'scope:join-after-separator': 5000,
                  'gen_compared': 400000, 'variants': 30000},
 }
@@ -166,8 +166,14 @@ def plain(parse, g, text):
         return ('EXC', type(e).__name__, str(e)[:80])
 
 
+PARSE_CONFIGS = [{}, {}, {}, {'memoization': False}, {'prune_memos_on_cut': False}, {'perlinememos': 0.01}]
+
+
 def check_variant(acc, g0, gv, texts, base_case, origin):
-    case = D.Case(gv, 'start')
+    # the cut must commit under every memoization configuration (the grammars here are not left recursive)
+    cfg = PARSE_CONFIGS[h64('C05cfg', L.grammar_text(gv)) % len(PARSE_CONFIGS)]
+    acc.count('config:' + ('+'.join(sorted(cfg)) or 'defaults'))
+    case = D.Case(gv, 'start', parse_settings=cfg)
     acc.count('variants')
     if case.model is None:
         acc.evaluations += 1
@@ -191,13 +197,14 @@ def check_variant(acc, g0, gv, texts, base_case, origin):
                 acc.count('scope:' + k, v)
             acc.nontriv(L.grammar_text(gv), text)
         if tag is not None:
-            g2, t2 = D.shrink_case(gv, 'start', text, tag)
-            c2 = D.Case(g2, 'start')
+            g2, t2 = D.shrink_case(gv, 'start', text, tag, parse_settings=cfg)
+            c2 = D.Case(g2, 'start', parse_settings=cfg)
             tag2, a2, b2, r2 = D.compare(c2, t2)
             if tag2 != tag:
                 g2, t2, a2, b2, r2 = gv, text, a, b, r
             scopes = '+'.join(sorted(r2.cut_scopes)) or 'no-commit'
-            acc.violation(f'{tag}/scopes:{scopes}/{kind_sig(g2)}',
+            cfgname = '+'.join(sorted(cfg)) or 'defaults'
+            acc.violation(f'{tag}/scopes:{scopes}/{kind_sig(g2)}' + ('' if not cfg else f'/config:{cfgname}'),
                           f'cut semantics differ from the documented scope rules ({tag}): grammar {L.grammar_text(g2).strip()!r} '
                           f'input {t2!r} REF={a2} TATSU={b2}',
                           D.witness(g2, 'start', t2, a2, b2, r2, origin=origin))
@@ -227,8 +234,8 @@ def check_variant(acc, g0, gv, texts, base_case, origin):
                               D.witness(gv, 'start', text, a, b, r, origin=origin))
                 gen_cls = False
         if gen_cls:
-            m_out = plain(plain_model.parse, gv, text)
-            g_out = plain(lambda t, **kw: gen_cls().parse(t, **kw), gv, text)
+            m_out = plain(lambda t, **kw: plain_model.parse(t, **kw, **cfg), gv, text)
+            g_out = plain(lambda t, **kw: gen_cls().parse(t, **kw, **cfg), gv, text)
             acc.count('gen_compared')
             if m_out != g_out:
                 # naming defects of generated code are C02's business; here only accept/reject (the cut's effect)
